@@ -10,6 +10,8 @@ global size_of usize == 8;
 
 #[verifier::external_body] pub struct Opaque { _p: u8 }
 #[verifier::external_body] pub struct SessionRef { _p: u8 }
+#[verifier::external_body] pub struct ControlMessage { _p: u8 }
+#[verifier::external_body] pub struct ActorProcessingErr { _p: u8 }
 #[verifier::external_body] pub struct ReplyPortStub { _p: u8 }
 #[verifier::external_body] pub struct OneshotTx { _p: u8 }
 #[verifier::external_body] pub struct OneshotRx { _p: u8 }
@@ -80,10 +82,13 @@ pub mod vocab {
         Spawn,
         /// pid registry lookup
         Lookup(u64),
+        /// R19: everything handle_control does after its authentication gate (remote-actor creation, pg join/leave,
+        /// session listing, tcp sends, node-server casts ...) is represented by this one opaque effect
+        Rest,
     }
-    pub enum Kind { DeliverLocal, DeliverProxy, Spawn, Lookup }
+    pub enum Kind { DeliverLocal, DeliverProxy, Spawn, Lookup, Rest }
     pub open spec fn kind_of(e: Effect) -> Kind {
-        match e { Effect::DeliverLocal(_) => Kind::DeliverLocal, Effect::DeliverProxy(_) => Kind::DeliverProxy, Effect::Spawn => Kind::Spawn, Effect::Lookup(_) => Kind::Lookup }
+        match e { Effect::DeliverLocal(_) => Kind::DeliverLocal, Effect::DeliverProxy(_) => Kind::DeliverProxy, Effect::Spawn => Kind::Spawn, Effect::Lookup(_) => Kind::Lookup, Effect::Rest => Kind::Rest }
     }
     }
 }
@@ -138,3 +143,11 @@ pub fn where_is_pid(id: ActorId) -> Option<ActorCell> { unimplemented!() }
     ensures final(log).s == old(log).s.push(Effect::Spawn),
 )]
 pub fn vx_spawn(f: ()) { unimplemented!() }
+
+/// R19: the erased remainder of a gated handler: may do anything to the session state and return anything
+#[verus_verify(external_body)]
+#[verus_spec(r =>
+    with Tracked(log): Tracked<&mut EffectLog>
+    ensures final(log).s == old(log).s.push(Effect::Rest),
+)]
+pub fn vx_rest_tail<T>() -> T { unimplemented!() }
